@@ -228,7 +228,9 @@ def search_op(w, tag, kinds=('find', 'facet', 'fe')):
         if len(pages) > 1:
             w.probes['pages_more_than_one'] += 1
         cat_ = [x for p in pages for x in p]
-        if cat_ != full:
+        # at most 12 pages are fetched: a longer list is compared on the prefix the fetched pages cover
+        covered = full if pos >= len(full) else full[:pos]
+        if cat_ != covered:
             first_bad = next((i for i, p in enumerate(pages) if p != full[i * limit:(i + 1) * limit]), None)
             w.violate('C17', 'pages_do_not_concatenate', 'first_page' if first_bad == 0 else 'later_page',
                       f'{via} {text} limit={limit}: pages {pages} do not concatenate to the full list {full} (page {first_bad} differs)', fatal=False)
